@@ -162,6 +162,10 @@ Definition api_mk_move (s d : N) (p : option piece) : move := {| m_src := s; m_d
 
 (* ---- search (C11-C13) ---- *)
 Definition api_search (k : N) (passes fuel : nat) (root : board) := Search.search k [] passes fuel root.
+(* the root position already stands `reps` times in the caller's repetition table (CLI / bot after repetitions) *)
+Fixpoint tf_rep (reps : nat) (b : board) : threefold :=
+  match reps with O => [] | S n => fst (tf_add (tf_rep n b) b) end.
+Definition api_search_tf (k : N) (reps passes fuel : nat) (root : board) := Search.search k (tf_rep reps root) passes fuel root.
 Definition api_nat_of_N := N.to_nat.
 Definition api_score_neg2 := Score.neg.
 
